@@ -3,6 +3,7 @@
    (* FULL: ||u_h - u|| = O(h^2), and O(h^p), p > 3, with implicit extrapolation *) *)
 From Coq Require Import List ZArith Bool Reals.
 From GMGP Require Import Scalar ScalarR InterpDefs StencilDefs StencilProofs StencilProofs2 StencilTie.
+From GMGP Require Import CycleDefs CycleRhs.
 From GMGPGen Require Import StencilGen.
 Import ListNotations.
 Local Open Scope R_scope.
@@ -68,6 +69,17 @@ Theorem C02_generated_rhs_loops_partition :
   xorb (gen_rhs_uncached_circle_visits nth nsc i j) (gen_rhs_uncached_radial_visits nr nth nsc i j) = true.
 Proof. exact gen_rhs_loops_partition. Qed.
 
+(* the level-1 right-hand side f_2h (and every other right-hand side) of the extrapolated system is read-only during the start-up and
+   the solver loop: for every number of levels, cycle type, smoothing counts, FMG variant, tolerance setting and stop-test oracle the
+   op sequence of solve() contains no write to a right-hand-side buffer.  The implementation side is the K-trace oracle
+   `extrapolation-coarse-rhs-preserved`. *)
+Theorem C02_extrapolated_system_rhs_is_read_only :
+  forall fmg fk iters k L pre post extrap combined has_exact tol fgs maxit oracle l,
+  ~ In (l, Rhs) (all_writes (init_ops fmg fk iters pre post extrap fgs L
+                             ++ fst (fst (solve_loop k L pre post extrap combined has_exact tol fgs 0%nat maxit oracle)))).
+Proof. exact solve_never_writes_rhs. Qed.
+
 Print Assumptions C02_interior_row_sum.
 Print Assumptions C02_generated_rhs_scaling_cached.
 Print Assumptions C02_richardson_algebra.
+Print Assumptions C02_extrapolated_system_rhs_is_read_only.
